@@ -195,18 +195,20 @@ class TriggerHandler:
                              function_name: str):
         # remove top context
         context: CallbackContext = self._callbacks.value.pop()
-        # if it is for our location process it
-        if context.at_location(event, file, line, function_name, frame):
-            logging.debug("At callback location %s", context.name)
-            context.process(ctx, event, frame, arg)
-        else:
-            logging.debug("Not at callback location %s", context.name)
-            # else put the context back on the queue
-            self._callbacks.value.append(context)
-
-        if len(self._callbacks.value) == 0:
-            logging.debug("Callbacks cleared.")
-            self._callbacks.clear()
+        try:
+            # if it is for our location process it
+            if context.at_location(event, file, line, function_name, frame):
+                logging.debug("At callback location %s", context.name)
+                context.process(ctx, event, frame, arg)
+            else:
+                logging.debug("Not at callback location %s", context.name)
+                # else put the context back on the queue
+                self._callbacks.value.append(context)
+        finally:
+            # always clear an empty queue (also when a callback failed), else the next event would fail on the pop
+            if len(self._callbacks.value) == 0:
+                logging.debug("Callbacks cleared.")
+                self._callbacks.clear()
 
     @staticmethod
     def location_from_event(event: str, frame: FrameType) -> Tuple[str, str, int, Optional[str]]:
